@@ -645,7 +645,7 @@ func (c *Ctx) evalBin(e *Expr) Val {
 		case ">=":
 			return scalar("(not (strlt "+a.T+" "+b.T+"))", SBool, boolT)
 		case "+":
-			return scalar("(concat "+a.T+" "+b.T+")", SStr, a.GoT)
+			return scalar("(strcat "+a.T+" "+b.T+")", SStr, a.GoT)
 		}
 	}
 	return c.errorf("unsupported operator %s on sort %s", op, a.Sort)
@@ -789,6 +789,20 @@ func (c *Ctx) evalCall(e *Expr) Val {
 			return scalar(sel(arr, x.T), "(Array "+ks+" "+vs+")", nil)
 		}
 		return c.errorf("vals of %v", x)
+	case "emptyset": // emptyset(string|int)
+		ks := SStr
+		if len(e.Kids) == 1 && e.Kids[0].Op == "id" && e.Kids[0].S != "string" {
+			ks = SInt
+		}
+		return scalar("((as const (Array "+ks+" Bool)) false)", "(Array "+ks+" Bool)", nil)
+	case "setadd":
+		s0 := c.eval(e.Kids[0])
+		x := c.eval(e.Kids[1])
+		return scalar("(store "+s0.T+" "+x.T+" true)", s0.Sort, nil)
+	case "setdel":
+		s0 := c.eval(e.Kids[0])
+		x := c.eval(e.Kids[1])
+		return scalar("(store "+s0.T+" "+x.T+" false)", s0.Sort, nil)
 	case "int": // integer value of a bit-vector/int term
 		x := c.eval(e.Kids[0])
 		return scalar(c.intTerm(x), SInt, types.Typ[types.Int])
